@@ -130,15 +130,38 @@ def judge_target(acc, fxm, fym, xs, ys, op, tfmt, kind, tmode, method, part):
         x = mk_operand(fxm, xs, (len(xs), 1), xmode)
         y = mk_operand(fym, ys, (1, len(ys)), other_mode(xmode))
         t = Fxp(np.zeros((len(xs), len(ys))), tfmt.signed, tfmt.n_word, tfmt.n_frac, rounding=tmode[0], overflow=tmode[1])
-        z = do_op(op, x, y, method=method, **({'out': t} if kind == 'out' else {'out_like': t}))
+        if kind in ('out_like_flagged', 'cfg_out_like_flagged'):
+            # the template has a history: it overflowed and lost accuracy before (its flags are raised, its codes are back to 0)
+            t.set_val(np.full((len(xs), len(ys)), 1e9))
+            t.set_val(np.full((len(xs), len(ys)), -1e9 - 0.3))
+            t.set_val(np.zeros((len(xs), len(ys))))
+        if kind == 'out':
+            z = do_op(op, x, y, method=method, out=t)
+        elif kind in ('out_like', 'out_like_flagged'):
+            z = do_op(op, x, y, method=method, out_like=t)
+        elif kind == 'cfg_out':
+            x.config.op_out = t
+            x.config.op_method = method
+            z = x + y if op == '+' else (x - y if op == '-' else x * y)
+        elif kind in ('cfg_out_like', 'cfg_out_like_flagged'):
+            x.config.op_out_like = t
+            x.config.op_method = method
+            z = x + y if op == '+' else (x - y if op == '-' else x * y)
+        elif kind == 'np_out':
+            z = {'+': np.add, '-': np.subtract, '*': np.multiply}[op](x, y, out=t)
+        else:
+            raise ValueError(kind)
     except Exception as e:
         acc.violation('exception', case, '%s %s %s %s=%s raised %r' % (fxm.dtype, op, fym.dtype, kind, tfmt.dtype, e), {'part': part, 'op': op, 'kind': kind})
         return
-    if kind == 'out' and z is not t:
-        acc.violation('identity', case, 'result of out= is not the out object', {'part': part, 'op': op, 'kind': kind})
+    if kind in ('out', 'cfg_out', 'np_out') and z is not t:
+        acc.violation('identity', case, 'result of %s is not the out object' % kind, {'part': part, 'op': op, 'kind': kind})
         return
-    if kind == 'out_like' and (z is t or flags(t) != (False, False, False) or any(codes(t))):
+    if kind in ('out_like', 'cfg_out_like') and (z is t or flags(t) != (False, False, False) or any(codes(t))):
         acc.violation('identity', case, 'out_like template was returned or modified', {'part': part, 'op': op, 'kind': kind})
+        return
+    if kind.endswith('_flagged') and (z is t or flags(t) != (True, True, True) or any(codes(t))):
+        acc.violation('identity', case, 'flagged out_like template was returned or modified', {'part': part, 'op': op, 'kind': kind})
         return
     exps = [exact(op, fxm, fym, a, b) for a in xs for b in ys]
     compare(acc, case, z, tfmt, tmode, exps, part, '%s %s %s %s=%s(%s/%s) method=%s' % ((fxm.dtype, op, fym.dtype, kind, tfmt.dtype) + tuple(tmode) + (method,)))
@@ -256,7 +279,7 @@ def bounds(tier, seed):
     k = 4 if tier == 'quick' else 5
     return {'P1_policies': 'all ordered pairs of the %d formats with 2<=n_word<=%d, 0<=n_frac<=n_word-sign x every code pair (broadcast) x {+,-,*} x '
                            '{same,largest,smallest} x {raw,repr} x 10 modes on the first operand (a different pair on the second)' % (len(grid(2, k)), k),
-            'P2_targets': 'out= and out_like= for every target format of the grid x 3 target mode pairs x operand pairs from a 6-format subset x 3 ops x '
+            'P2_targets': 'out= / out_like= / config.op_out / config.op_out_like / numpy out= (also with a template whose flags are already raised) for every target format of the grid x 3 target mode pairs x operand pairs from a 6-format subset x 3 ops x '
                           '{raw,repr}',
             'P3_constants': '%d dyadic constants k/2^j on either side x op_input_size {same,best} x const_op_sizing {optimal,same,largest,smallest} x '
                             'all codes of every grid format x 3 ops x %d modes' % (len(CONSTS), 3 if tier == 'quick' else 10),
@@ -310,6 +333,8 @@ def run_shard(sh):
                         for kind in ('out', 'out_like'):
                             for method in ('raw', 'repr'):
                                 judge_target(acc, fxm, fym, xs, ys, op, tfmt, kind, tmode, method, 'P2')
+                        for kind in ('cfg_out', 'cfg_out_like', 'np_out', 'out_like_flagged', 'cfg_out_like_flagged'):
+                            judge_target(acc, fxm, fym, xs, ys, op, tfmt, kind, tmode, 'raw', 'P2')
     elif part == 'P3':
         g = grid(2, sh['k'])
         fxm = g[sh['i']]
@@ -365,7 +390,7 @@ def finish(merged, tier, seed):
     for k in ('inexact_or_overflow', 'representable', 'unary_ok'):
         if merged['outcomes'].get(k, 0) < 100:
             raise HarnessError('outcome %s under-exercised' % k)
-    for d, letters in (('policy', SIZINGS), ('method', ('raw', 'repr')), ('target_kind', ('out', 'out_like')), ('input_size', ('same', 'best')),
+    for d, letters in (('policy', SIZINGS), ('method', ('raw', 'repr')), ('target_kind', ('out', 'out_like', 'cfg_out', 'cfg_out_like', 'np_out', 'out_like_flagged')), ('input_size', ('same', 'best')),
                        ('const_policy', ('optimal', 'same', 'largest', 'smallest')), ('side', ('left', 'right'))):
         for l in letters:
             if merged['dims'].get(d, {}).get(l, 0) < 50:
